@@ -258,6 +258,10 @@ func spansLines(n templang.Node, loose bool) bool {
 		if wsAfter(k) == "v" || openTagSpansLines(k, loose) || (k.K == "el" && spansLines(k, loose)) {
 			return true
 		}
+		switch k.K {
+		case "callb", "if", "for", "switch", "gcomment", "gocodeml":
+			return true // always written on several lines (as in FmtLayout.tla's SpansLines)
+		}
 		for _, a := range k.Attrs {
 			if a.A == "cond" {
 				return true
@@ -314,7 +318,7 @@ func dropGoComments(ns []templang.Node) []templang.Node {
 }
 
 func src(prog []templang.Node, v templang.Variant) string {
-	return templang.Header("p") + templang.Template("P", prog, v)
+	return templang.HeaderV("p", v) + templang.Template("P", prog, v)
 }
 
 // failsWith re-runs the oracle on a rewritten program and reports whether the same kind of failure remains.
@@ -355,7 +359,7 @@ var oddFeatures = []struct {
 }
 
 func srcOdd(prog []templang.Node, odd int) string {
-	return templang.Header("p") + templang.TemplateOdd("P", prog, 3, odd)
+	return templang.HeaderV("p", 3) + templang.TemplateOdd("P", prog, 3, odd)
 }
 
 func failsSrc(s string, kind string) bool {
@@ -601,7 +605,7 @@ func layout(path string) {
 					if v == 2 {
 						pred = rec.FmtL
 					}
-					want := templang.Header("p") + templang.FormatPrint(pred, v)
+					want := templang.HeaderV("p", 0) + templang.FormatPrint(pred, v)
 					s := src(rec.Prog, v)
 					got, err := realFormat(s)
 					r.n++
